@@ -190,3 +190,14 @@ func withBundleProps(r *prng.R, m *rec.Rec) *rec.Rec {
 	}
 	return m
 }
+
+func init() {
+	// slices handed to the library by the builders are cut from larger arrays with a canary behind them: a library
+	// function that appends to or writes past a caller's slice is reported whatever property is being checked
+	fw.BeforeCase = func(c *fw.Ctx) { lib.ResetCanaries() }
+	fw.AfterCase = func(c *fw.Ctx) {
+		if msg := lib.CheckCanaries(); msg != "" {
+			c.Violation("case", "argument-overwritten", "memory-behind-a-caller-slice", msg)
+		}
+	}
+}
